@@ -1,4 +1,4 @@
-from harness import hist
+from harness import conc, hist
 
 META = {
     'property_id': 'C04', 'lean_module': 'Placement.Props.C04', 'category': 'proof',
@@ -15,15 +15,25 @@ PROFILE = {'weights': {'alloc_put': 22, 'alloc_post': 14, 'reshape': 10, 'inv_se
                        'rp_traits_set': 6, 'aggs_set': 6, 'rp_delete': 4},
            'n_rps': 5}
 
+RACES = {'n_rps': 2, 'setup_ops': 16, 'existing_consumer_bias': 0.5, 'model': False,
+         'setup_weights': {'rp_delete': 0, 'alloc_put': 25, 'alloc_delete': 1, 'rc_rename': 0, 'rc_delete': 0, 'trait_delete': 0,
+                           'rp_update': 0},
+         'race_kinds': {'alloc_put': 8, 'alloc_post': 3, 'inv_set': 3, 'inv_update': 2, 'reshape': 1},
+         'p_three': 0.0}
+
 
 def run(chk):
     if not getattr(chk, 'no_lean', False):
         chk.lean_stage(META['lean_module'], exe=True)
     n = 400 if chk.tier == 'quick' else 6000
     hist.run_histories(chk, n, 40, PROFILE, ['C04'])
+    # beyond sequences: a rejected request must leave no trace also when another request is in flight: every interleaving
+    # of request pairs on the real application; the final tables must be those of the SUCCESSFUL requests alone, run
+    # one after the other in some order
+    conc.run_races(chk, ['C04'], 64 if chk.tier == 'quick' else 2000, 120, RACES)
     rej = sum(v for k, v in chk.cov.get('by_op_status', {}).items() if k.split()[-1][0] in '45')
     chk.cov['rejected_requests'] = rej
     chk.cov['rule'] = ('random histories of 40 requests; stale/ahead generations, unknown providers and classes, capacity and '
                        'unit violations on the n-th of m entries, inventory in use; after every rejected request the real '
                        'tables (minus project/user/consumer-type/aggregate-uuid registries) must equal the tables before; '
-                       'distinct = (operation, status) pairs')
+                       'distinct = (operation, status) pairs; plus every interleaving of pairs of racing writes, judged by the serial-order oracle')
